@@ -64,7 +64,8 @@ func mirrorSFlowDispatcher(ch chan SFUDPMsg) {
 
 func mirrorSFlow(dst net.IP, port int, ch chan SFUDPMsg) error {
 	var (
-		packet = make([]byte, opts.SFlowUDPSize)
+		// room for the largest payload plus the IP and UDP headers put in front of it
+		packet = make([]byte, opts.SFlowUDPSize+mirror.IPv6HLen+mirror.UDPHLen)
 		msg    SFUDPMsg
 		pLen   int
 		err    error
